@@ -33,14 +33,40 @@ L2all == L2ok \cup L2bad
 SmallDeltas == {<<>>, << <<0, EV(1)>> >>, << <<1, CMV(0)>> >>, << <<0, CMV(1)>>, <<1, CMV(0)>> >>, << <<0, Ex(1, EV(0))>> >>}
 L3 == {RDyn(a, d) : a \in L2ok, d \in SmallDeltas} \cup {RInst(a, d) : a \in L2ok, d \in InstDeltas} \cup {RGen(a, x) : a \in L2ok, x \in {0, 1}}
         \cup {r \in {RMp(a, b) : a \in L2ok, b \in L0 \cup L2ok} : Conc(r).ok}
-SpecCases == SetToSeq(L1 \cup L2all \cup L3)
-CheckSpec(i) ==
-  LET r == SpecCases[i]  c == Conc(r)  cc == CompileClause(r) IN
+ExprCases == SetToSeq(L1 \cup L2all \cup L3)
+
+\* ---- whole modules: axioms, claims (= the conclusions), proofs ----
+NNegS(x) == NInst(Imp(CMV(0), NBot), << <<0, x>> >>)
+AxiomSets == {<<>>, <<Imp(Sym(0), Sym(1))>>, <<Imp(Sym(1), Sym(0)), Sym(1)>>, <<Imp(CMV(0), CMV(0)), NNegS(Sym(2)), Imp(Sym(2), Sym(0))>>}
+PoolE == L0 \cup {RDyn(R0("prop1"), << <<0, EV(0)>> >>), RInst(R0("prop2"), << <<1, CMV(0)>> >>), RGen(R0("quant"), 0),
+                  RDyn(R0("prop3"), << <<0, NNegS(EV(1))>> >>),
+                  RMp(RDyn(R0("prop1"), << <<0, Prop1Ax>> >>), R0("prop1"))}
+PoolA(as) == {RAx(as[k]) : k \in 1..Len(as)}
+             \cup {RMp(RAx(as[i]), RAx(as[j])) : <<i, j>> \in {ij \in (1..Len(as)) \X (1..Len(as)) :
+                       Expand(as[ij[1]]).t = "imp" /\ Expand(as[ij[1]]).l = Expand(as[ij[2]])}}
+             \cup {RDyn(RAx(as[k]), << <<0, Sym(1)>> >>) : k \in 1..Len(as)}
+Pool(as) == PoolE \cup PoolA(as)
+Mod(is, as, ps) == [imports |-> is, axioms |-> as, proofs |-> ps]
+MA == Mod(<<>>, <<Imp(Sym(0), Sym(1))>>, <<>>)
+MB == Mod(<<MA>>, <<Sym(3), Imp(Sym(0), Sym(1))>>, <<R0("prop1")>>)      \* its claim is not part of the importer's claims
+ImportSets == {<<MA>>, <<MA, MA>>, <<MB>>, <<MA, MB>>}
+ModulesI == UNION {{Mod(is, as, ps) : is \in ImportSets, ps \in {<<>>} \cup {<<a>> : a \in PoolA(as) \cup {R0("prop1")}}} : as \in AxiomSets}
+Modules == ModulesI \cup UNION {{Mod(<<>>, as, ps) : ps \in {<<>>} \cup {<<a>> : a \in Pool(as)} \cup {<<a, b>> : a \in Pool(as), b \in Pool(as)}} : as \in AxiomSets}
+ModCases == SetToSeq(Modules)
+NE == Len(ExprCases)
+SpecCases == ExprCases \o ModCases
+CheckExpr(i) ==
+  LET r == ExprCases[i]  c == Conc(r)  cc == CompileClause(r) IN
   \* every statically valid expression and a sample of the statically invalid modus ponens
   IF cc # "" THEN cc
   ELSE IF c.ok \/ i % 2 = 0
        THEN (IF PrintT("PEXP " \o ToJson([r |-> r, ok |-> c.ok, run |-> c.run, und |-> c.und, c |-> c.c,
                                            calls |-> IF c.ok THEN Methods(ExprCalls(r)) ELSE <<>>])) THEN "" ELSE "")
        ELSE ""
+CheckModule(i) ==
+  LET m == ModCases[i]  cc == ModuleClause(m) IN
+  IF cc # "" THEN cc
+  ELSE IF PrintT("PMOD " \o ToJson([m |-> m, files |-> ModuleFiles(m).files])) THEN "" ELSE ""
+CheckSpec(i) == IF i <= NE THEN CheckExpr(i) ELSE CheckModule(i - NE)
 INSTANCE TraceBlocks WITH NCases <- Len(SpecCases), Check <- CheckSpec
 =============================================================================
